@@ -381,18 +381,26 @@ func (e *MetaCDC) checkDuplicateCollection(uKey string,
 			if nd == cdcreader.AllDatabase && nc == cdcreader.AllCollection {
 				continue
 			}
+			// the new name is free only if every existing wildcard name which contains it belongs to a task which has
+			// excluded it. The exclusions of the target are kept as a multiset, one entry for each task which excludes
+			// the name, so a name excluded by one wildcard task isn't free when another wildcard task contains it too
+			containCnt := 0
+			partialOverlap := false
 			for _, name := range names {
 				match, containAny := matchCollectionName(name, newCollectionName)
-				if match && containAny && !lo.Contains(e.collectionNames.excludeData[uKey], newCollectionName) {
-					duplicateCollections = append(duplicateCollections, newCollectionName)
-					break
+				if match && containAny {
+					containCnt++
+					continue
 				}
 				// the names overlap partially, like `default.*` and `*.foo`, and neither contains the other,
 				// so the common collections can't be excluded from the new task by an existing name
 				if reverseMatch, _ := matchCollectionName(newCollectionName, name); !match && !reverseMatch && intersectCollectionName(name, newCollectionName) {
-					duplicateCollections = append(duplicateCollections, newCollectionName)
+					partialOverlap = true
 					break
 				}
+			}
+			if partialOverlap || containCnt > lo.Count(e.collectionNames.excludeData[uKey], newCollectionName) {
+				duplicateCollections = append(duplicateCollections, newCollectionName)
 			}
 		}
 		if len(duplicateCollections) > 0 {
